@@ -70,7 +70,7 @@ def _init_worker(modname):
         _MOD.init_worker()
 
 
-def _run_chunk(chunk):
+def _run_inline(chunk):
     out = []
     for idx, case in chunk:
         try:
@@ -78,6 +78,75 @@ def _run_chunk(chunk):
             out.append((idx, case, dict(r), None))
         except Exception:
             out.append((idx, case, None, traceback.format_exc()))
+    return out
+
+
+CASE_BUDGET_S = float(os.environ.get('TTMC_CASE_BUDGET', '180'))
+
+
+def _fork_run(chunk, budget):
+    """run the chunk in a forked child; returns the result list, or None when the child hung (killed after `budget` seconds)
+    or died.  A library call that never returns (e.g. LAPACK looping on NaNs) cannot be interrupted from Python, so the
+    watchdog has to be another process."""
+    import pickle
+    import select
+    import signal
+    r, w = os.pipe()
+    pid = os.fork()
+    if pid == 0:
+        code = 0
+        try:
+            os.close(r)
+            data = pickle.dumps(_run_inline(chunk))
+            with os.fdopen(w, 'wb') as f:
+                f.write(data)
+        except BaseException:
+            code = 3
+        os._exit(code)
+    os.close(w)
+    buf = b''
+    deadline = time.time() + budget
+    ok = True
+    while True:
+        left = deadline - time.time()
+        if left <= 0:
+            ok = False
+            break
+        rd, _, _ = select.select([r], [], [], min(left, 5.0))
+        if rd:
+            part = os.read(r, 1 << 20)
+            if not part:
+                break
+            buf += part
+    os.close(r)
+    if not ok:
+        try:
+            os.kill(pid, signal.SIGKILL)
+        except OSError:
+            pass
+    _, status = os.waitpid(pid, 0)
+    if not ok or os.WIFSIGNALED(status) or os.WEXITSTATUS(status) != 0 or not buf:
+        return None
+    try:
+        return pickle.loads(buf)
+    except Exception:
+        return None
+
+
+def _run_chunk(chunk):
+    if os.environ.get('TTMC_NO_FORK'):
+        return _run_inline(chunk)
+    res = _fork_run(chunk, max(CASE_BUDGET_S, 30.0 * len(chunk)))
+    if res is not None:
+        return res
+    # something in this chunk hung or killed the process: isolate the culprit case by case
+    out = []
+    for item in chunk:
+        one = _fork_run([item], CASE_BUDGET_S)
+        if one is None:
+            out.append((item[0], item[1], None, 'TIMEOUT-OR-CRASH: the case did not return within %.0f s (or the process died) when run alone' % CASE_BUDGET_S))
+        else:
+            out += one
     return out
 
 
@@ -158,6 +227,7 @@ def run_check(modname, tier, seed, limit=None, only_cls=None):
     samples = []
     viol = {}      # cls -> list of (idx, case, detail)
     harness = []
+    timeouts = []
 
     gen = enumerate(mod.cases(tier, seed))
     if limit:
@@ -169,7 +239,7 @@ def run_check(modname, tier, seed, limit=None, only_cls=None):
         for idx, case, r, err in res:
             evaluations += 1
             if err is not None:
-                harness.append((idx, case, err))
+                (timeouts if err.startswith('TIMEOUT-OR-CRASH') else harness).append((idx, case, err))
                 continue
             keys = r['key'] if isinstance(r['key'], list) else [r['key']]
             hk = [_h(k) for k in keys]
@@ -193,6 +263,11 @@ def run_check(modname, tier, seed, limit=None, only_cls=None):
         print('HARNESS-ERROR: %d case(s) failed inside the checker itself; first:' % len(harness))
         print(json.dumps(harness[0][1]))
         print(harness[0][2])
+
+    if timeouts:
+        timeouts.sort(key=lambda t: t[0])
+        print('HARNESS-NOTE: %d case(s) hung or crashed the interpreter and were killed by the watchdog; first: %s'
+              % (len(timeouts), json.dumps(timeouts[0][1])[:400]))
 
     # ---- classify violations
     new_cls = sorted(c for c in viol if c not in known)
@@ -249,7 +324,8 @@ def run_check(modname, tier, seed, limit=None, only_cls=None):
         'distinct_nontrivial': len(nontrivial),
         'rule': getattr(mod, 'RULE', ''),
         'samples': samples[:6],
-        'exhaustive': bool(not limit and not extra.get('cap_hit', 0)),
+        'exhaustive': bool(not limit and not extra.get('cap_hit', 0) and not timeouts and not harness),
+        'cases_killed_by_watchdog': len(timeouts),
         'bounds': bounds,
         'distinct_outcomes': len(outcomes),
         'outcome_histogram_top': sorted(outcomes.items(), key=lambda kv: -kv[1])[:12],
@@ -275,9 +351,11 @@ def run_check(modname, tier, seed, limit=None, only_cls=None):
     print('%s tier=%s seed=%d: cases=%d states=%d transitions=%d compared=%d nontrivial=%d outcomes=%d '
           'known=%d new=%d wall=%.1fs' % (prop, tier, seed, evaluations, len(states), transitions, compared,
                                         len(nontrivial), len(outcomes), len(known_hit), len(new_cls), wall))
-    if harness or unrepro:
+    if reported > 0:
+        return 1            # confirmed, replayable violations take precedence over cases that could not be judged
+    if harness or unrepro or timeouts:
         return 2
-    return 1 if new_cls else 0
+    return 0
 
 
 COMMON_ASSUMPTIONS = [
